@@ -200,7 +200,7 @@ def run(tier):
                 hit("fault-not-reached", "the failing write was never reached")
             else:
                 if not recs:
-                    hit(f"not-logged:{PCLASS[rq['proto']]}:{cs['cls']}", "the failed connection left no EXCEPTION record")
+                    hit(f"not-logged:{PCLASS[rq['proto']]}", "the failed connection left no EXCEPTION record")
                 for c, addr, _ in recs:
                     if c != own and not (own == "TimeoutError" and c == "timeout"):
                         hit(f"logged-as-other-class:{PCLASS[rq['proto']]}:{c}",
